@@ -18,6 +18,30 @@ def extract_tests(text):
     return out
 
 
+def tests_from_trace(h, text, prop_pat=r"\.unwind\.\d+"):
+    """Build a playback test from a raw CBMC trace (used for unwinding-assertion
+    failures of termination harnesses, for which Kani's own concrete playback
+    emits nothing).  Every assignment to the return value of kani::any_raw_* in
+    the trace of the failing property becomes one concrete value."""
+    m = re.search(r"^Trace for [^\n]*" + prop_pat + r":\n(.*?)(?=^Trace for |\Z)", text, re.S | re.M)
+    if not m:
+        return []
+    vals = []
+    for am in re.finditer(r"goto_symex\$\$return_value\$\$\S*any_raw\S*?(?:\[\d+\])?=\S+ \(([01 ]+)\)", m.group(1)):
+        bits = am.group(1).replace(" ", "")
+        if len(bits) % 8:
+            return []
+        by = [int(bits[i:i + 8], 2) for i in range(0, len(bits), 8)]
+        by.reverse()  # little endian
+        vals.append(by)
+    name = "kani_concrete_playback_%s_trace" % h["name"]
+    body = ",\n".join("        vec!%s" % (v,) for v in vals)
+    src = ("/// Test built from the CBMC trace of a failed unwinding assertion (non-termination)\n"
+           "#[test]\nfn %s() {\n    let concrete_vals: Vec<Vec<u8>> = vec![\n%s\n    ];\n"
+           "    kani::concrete_playback_run(concrete_vals, %s);\n}\n" % (name, body, h["name"]))
+    return [(name, src)]
+
+
 def make_dir(h, tests, log_text):
     d = os.path.join(REPLAY, h["prop"], h["name"])
     if os.path.exists(d):
@@ -75,7 +99,7 @@ def run_dir(d, keep_target=False, verbose=False):
             details.append({"profile": profile, "result": "build-failed", "tail": out[-1500:]})
             continue
         for t in meta["tests"]:
-            rc, out, secs = _run(base + ["--", "--exact", f"{meta['harness'].rsplit('::',1)[0]}::{t}"], d, e, 60 if meta["termination"] else 600)
+            rc, out, secs = _run(base + ["--", "--exact", f"{meta['harness'].rsplit('::',1)[0]}::{t}"], d, e, 30 if meta["termination"] else 600)
             if rc == "timeout":
                 res = "hang" if meta["termination"] else "timeout"
                 rep = meta["termination"]
